@@ -55,7 +55,16 @@ def _tramp(arg):
     fn, idx, job = arg
     try:
         res = resolve(fn)(job)
-    except Exception:
+    except Exception as e:
+        if type(e).__name__ == 'LibCrash':
+            prop = (job.get('prop') if isinstance(job, dict) else None) or os.environ.get('VERIF_PROP', '?')
+            if prop == 'both':
+                prop = os.environ.get('VERIF_PROP', '?')
+            return idx, {'cases': 1, 'calls': 1, 'nontrivial': 1, 'outcomes': {'crash': 1},
+                         'viol': [{'key': '%s|crash|%s|%s|%s' % (prop, e.exc_type, e.where, digest(job)),
+                                   'what': '%s: library raised %s (%s) at %s on a valid call; job=%s' % (
+                                       prop, e.exc_type, e.msg, e.where, json.dumps(job, default=str)[:600]),
+                                   'detail': {'exception': e.exc_type, 'message': e.msg}}]}
         res = {'cases': 0, 'harness_error': traceback.format_exc()[-2000:]}
     return idx, res
 
@@ -126,6 +135,7 @@ def confirm(path):
 def run_check(prop, tier, layers, level_text='', assumptions=(), cap_s=None,
               evidence_extra=None):
     t0 = time.time()
+    os.environ['VERIF_PROP'] = prop
     seed = int(os.environ.get('VERIF_SEED', '0') or 0)
     known = [e for e in load_known() if e.get('property') == prop and e.get('status') == 'known']
     tot = {'cases': 0, 'calls': 0, 'nontrivial': 0}
